@@ -263,6 +263,17 @@ func (c18) closeAt(sc core.Scenario, r *core.R) {
 		r.Key(fmt.Sprintf("%s#%d fired=%v exitstall=%d", point, occ, triggerFired, sc.I("exitstall")), true)
 		return
 	}
+	// the closer returns only once the connection loop has wound down: its exit path has been entered (and,
+	// by the defer order, the in-flight calls failed and the sinks closed) before the closer's return was logged
+	wound := false
+	for _, e := range core.Log.Snapshot() {
+		if e.Point == "ws.exit.begin" && e.Client && e.Seq < closeSeq {
+			wound = true
+		}
+	}
+	if !wound {
+		r.Violate("closer-returned-early", "%s: the closer returned before the client's connection loop had begun to wind down", where)
+	}
 	mu.Lock()
 	allOuts := append([]*Outcome(nil), outs...)
 	allGots := append([]*got(nil), gots...)
